@@ -56,7 +56,7 @@ func runHistory(c HistoryCase, chk historyChecks, rec *Rec) error {
 	pool := []*genetics.Genome{start}
 	pop := populationFor(c.Start)
 	nextId := 1000
-	poolSnaps := map[*genetics.Genome]GenomeSpec{}
+	poolSnaps := map[*genetics.Genome]GenomeSpec{start: c.Start}
 	var led *histLedger
 	if chk.c03 {
 		led = newHistLedger()
@@ -101,6 +101,8 @@ func runHistory(c HistoryCase, chk historyChecks, rec *Rec) error {
 				if err := sharedState(subject, dup); err != nil {
 					return fmt.Errorf("%s: %v", where, err)
 				}
+				// from this moment on source and copy are watched: the very next mutation of either must leave the other alone
+				poolSnaps[subject], poolSnaps[dup] = before, Snapshot(dup)
 				dis, rc, _ := specFeatures(before)
 				if dis > 0 {
 					rec.Class("disabled gene")
@@ -158,7 +160,7 @@ func runHistory(c HistoryCase, chk historyChecks, rec *Rec) error {
 			}
 			if chk.c06 {
 				// whether a crossover leaves its parents alone is C04's business: re-base their snapshots
-				poolSnaps[subject], poolSnaps[dad] = Snapshot(subject), Snapshot(dad)
+				poolSnaps[subject], poolSnaps[dad], poolSnaps[child] = Snapshot(subject), Snapshot(dad), Snapshot(child)
 			}
 			classifyCrossover(b1, b2, rec)
 			pool = addToPool(pool, child, op.A+op.B)
